@@ -88,6 +88,10 @@ impl Next<f64> for EfficiencyRatio {
             previous = *n;
         }
 
+        if volatility == 0.0 {
+            return 1.0;
+        }
+
         (first - input).abs() / volatility
     }
 }
